@@ -2089,3 +2089,460 @@ func runC02Round5b(c *Ctx) {
 		c.Undecided("space waits of the queues", "-", "none found")
 	}
 }
+
+// ---------- C19.R17: the scraper counters count data points ----------
+func runC19ScraperUnit(c *Ctx) {
+	p := c.P
+	c.Rule("R17", "TAB", "the scraper-level item counters use the unit of their name and of the receiver-level counters of the same scrape – metric data points: what the scraper helper books under *_metric_points is taken from DataPointCount(), never from MetricCount()", 1)
+	pk := p.Pkg("scraper/scraperhelper")
+	if pk == nil {
+		c.Anchor("scraper/scraperhelper")
+		return
+	}
+	n := 0
+	for _, fn := range p.AllSrcFuncs(pk) {
+		for _, ci := range callsNamed(fn, func(f *types.Func) bool {
+			return (f.Name() == "MetricCount" || f.Name() == "DataPointCount") && f.Pkg() != nil && strings.HasSuffix(f.Pkg().Path(), "/pdata/pmetric")
+		}) {
+			n++
+			c.Check(calleeOf(ci).Name() == "DataPointCount", fmt.Sprintf("metrics counted in %s (#%d) are data points", fnName(fn), n), p.Pos(ci.Pos()), "DataPointCount()", "the number of METRICS is booked under otelcol_scraper_scraped_metric_points (unit {datapoints}) and the span attribute scraped_metric_points: one gauge with four points reads 1 at the scraper level and 4 in otelcol_receiver_accepted_metric_points of the same scrape")
+		}
+	}
+	if n == 0 {
+		c.Undecided("metric counts in the scraper helper", "-", "none found")
+	}
+}
+
+// ---------- C17.R11 ----------
+func runC17LimitRecheck(c *Ctx) {
+	p := c.P
+	c.Rule("R11", "GATE", "the cardinality limit refuses only combinations that have no shard: the refusal of the sharded batcher depends on a lookup of the shard table made while the lock is held (the lock-free lookup in front can be stale: a concurrent request may just have created the shard and filled the last slot)", 1)
+	pk := p.Pkg("processor/batchprocessor")
+	if pk == nil {
+		c.Anchor("processor/batchprocessor")
+		return
+	}
+	n := 0
+	for _, fn := range p.AllSrcFuncs(pk) {
+		if fn.Parent() != nil {
+			continue
+		}
+		locks := callsNamed(fn, func(f *types.Func) bool { return f.FullName() == "(*sync.Mutex).Lock" })
+		if len(locks) == 0 {
+			continue
+		}
+		for _, r := range returnsOf(fn) {
+			res := resultsOf(r)
+			if len(res) != 1 {
+				continue
+			}
+			isLimitErr := false
+			for v := range backSlice(res[0]) {
+				if g, ok := v.(*ssa.Global); ok && strings.Contains(strings.ToLower(g.Name()), "toomany") {
+					isLimitErr = true
+				}
+			}
+			if !isLimitErr {
+				continue
+			}
+			n++
+			rechecked := false
+			for _, cond := range controllingCondsDeep(r.Block()) {
+				for v := range backSlice(cond) {
+					call, ok := v.(*ssa.Call)
+					if !ok {
+						continue
+					}
+					if f := calleeOf(call); f != nil && (f.FullName() == "(*sync.Map).Load" || f.FullName() == "(*sync.Map).LoadOrStore") {
+						for _, l := range locks {
+							if instrDominates(l.(ssa.Instruction), call) {
+								rechecked = true
+							}
+						}
+					}
+				}
+			}
+			c.Check(rechecked, "limit refusal in "+fnName(fn)+" follows a lookup under the lock", p.Pos(r.Pos()), "depends on a Load made after Lock", "the refusal is decided on the lock-free lookup alone: when two first requests for the same new metadata combination race for the last free slot, the loser is refused with the permanent `too many batchers` error although its shard exists – its data is dropped")
+		}
+	}
+	if n == 0 {
+		c.Undecided("limit refusal of the sharded batcher", "-", "not found")
+	}
+}
+
+// ---------- C08.R21 (known finding): recursive decoding without a depth bound ----------
+func runC08Recursion(c *Ctx) {
+	p := c.P
+	c.Rule("R21", "TERM", "decoding is total: a cycle of generated protobuf Unmarshal methods (a value that can contain itself: AnyValue → ArrayValue / KeyValueList → AnyValue) carries a depth bound – otherwise the nesting depth of the INPUT decides the stack depth and a deeply nested payload ends the process with a stack overflow, which cannot be recovered", 1)
+	var fns []*ssa.Function
+	idx := map[*ssa.Function]int{}
+	for _, pk := range p.Pkgs {
+		if !strings.Contains(pk.PkgPath, "/pdata/internal/data/protogen") {
+			continue
+		}
+		for _, fn := range p.AllSrcFuncs(pk) {
+			if fn.Parent() == nil && fn.Name() == "Unmarshal" && fn.Signature.Recv() != nil {
+				idx[fn] = len(fns)
+				fns = append(fns, fn)
+			}
+		}
+	}
+	if len(fns) == 0 {
+		c.Undecided("generated Unmarshal methods", "-", "none found")
+		return
+	}
+	adj := make([][]int, len(fns))
+	for i, fn := range fns {
+		for _, ci := range calls(fn, func(ssa.CallInstruction) bool { return true }) {
+			if sf := staticCalleeFn(ci); sf != nil {
+				if j, ok := idx[sf]; ok {
+					adj[i] = append(adj[i], j)
+				}
+			}
+		}
+	}
+	// functions on a cycle: reachable from themselves
+	n := 0
+	for i, fn := range fns {
+		seen := map[int]bool{}
+		st := append([]int(nil), adj[i]...)
+		onCycle := false
+		for len(st) > 0 {
+			x := st[len(st)-1]
+			st = st[:len(st)-1]
+			if x == i {
+				onCycle = true
+				break
+			}
+			if seen[x] {
+				continue
+			}
+			seen[x] = true
+			st = append(st, adj[x]...)
+		}
+		if !onCycle {
+			continue
+		}
+		n++
+		bounded := false
+		for _, prm := range fn.Params[1:] {
+			if b, ok := prm.Type().Underlying().(*types.Basic); ok && b.Info()&types.IsInteger != 0 {
+				bounded = true // a depth parameter
+			}
+		}
+		c.Check(bounded, "recursive decoder "+fnName(fn)+" bounds its depth", p.Pos(fn.Pos()), "depth parameter / counter", "the method is part of a recursion cycle of the generated decoders and nothing limits the depth: a 13.5 MB payload of 1.4 million nested AnyValue arrays (below the OTLP/HTTP receiver's default 20 MiB body limit) ends the process with `fatal error: stack overflow`")
+	}
+	if n == 0 {
+		c.OK("no recursion cycle among the generated Unmarshal methods", "-", fmt.Sprintf("%d methods", len(fns)))
+	}
+}
+
+// ---------- C10.R11 (known finding): a shared component is started with its first graph node ----------
+func runC10SharedStart(c *Ctx) {
+	p := c.P
+	c.Rule("R11", "ORD", "a component shared by several graph nodes is started only when every component it sends data to has started, i.e. not before the LAST of its nodes is reached (and stopped with the first): the shared wrapper does not delegate Start to the wrapped component from whichever node happens to come first", 1)
+	pk := p.Pkg("internal/sharedcomponent")
+	if pk == nil {
+		c.Anchor("internal/sharedcomponent")
+		return
+	}
+	n := 0
+	for _, fn := range p.AllSrcFuncs(pk) {
+		if fn.Parent() != nil || fn.Name() != "Start" || fn.Signature.Recv() == nil {
+			continue
+		}
+		for _, cl := range withAnon(fn) {
+			if cl == fn || !passedToOnce(cl) {
+				continue
+			}
+			for _, ci := range calls(cl, func(ci ssa.CallInstruction) bool {
+				return ci.Common().IsInvoke() && ci.Common().Method.Name() == "Start"
+			}) {
+				n++
+				c.Bad("shared component is started when its last node is reached", p.Pos(ci.Pos()), "the wrapped component is started inside a sync.Once by the FIRST graph node that reaches it (and shut down by the first Shutdown): an OTLP receiver shared by traces and metrics starts serving both signals when its traces node is started, possibly before the processors and exporters of the metrics pipeline – 20 of 40 randomised builds started the shared receiver before a downstream component, 14 shut a shared exporter down before an upstream one")
+			}
+		}
+	}
+	if n == 0 {
+		c.OK("the shared wrapper does not start the wrapped component from its first node", "-", "no Start inside a Once")
+	}
+}
+
+// ---------- rules for the second batch of repaired defects ----------
+func runC13Batch2(c *Ctx) {
+	p := c.P
+	ev := p.LookupType("confmap", "expandedValue")
+	cpk := p.Pkg("confmap")
+	c.Rule("R18", "TAB", "a null that arrives through a reference is a null: the decode hook that replaces nil map entries by pointers to zero structs also recognises an entry that is an expanded value holding nil – `pipelines::metrics: ${env:EMPTY}` is treated like `pipelines::metrics:` (an ordinary validation error), it does not become a typed nil pointer that validation dereferences", 1)
+	if cpk == nil || ev == nil {
+		c.Anchor("confmap.expandedValue")
+	} else {
+		n := 0
+		for _, fn := range p.AllSrcFuncs(cpk) {
+			if fn.Parent() == nil {
+				continue
+			}
+			sets := callsNamed(fn, func(f *types.Func) bool { return f.FullName() == "(reflect.Value).SetMapIndex" })
+			news := callsNamed(fn, func(f *types.Func) bool { return f.FullName() == "reflect.New" })
+			nils := callsNamed(fn, func(f *types.Func) bool { return f.FullName() == "(reflect.Value).IsNil" })
+			if len(sets) == 0 || len(news) == 0 || len(nils) == 0 {
+				continue
+			}
+			n++
+			knows := false
+			allInstrs(fn, func(in ssa.Instruction) {
+				if ta, ok := in.(*ssa.TypeAssert); ok && namedOf(ta.AssertedType) == ev {
+					knows = true
+				}
+			})
+			c.Check(knows, "nil-entry expansion in "+fnName(fn)+" recognises a referenced null", p.Pos(fn.Pos()), "type test for the expanded value", "the hook only looks at IsNil(): a null obtained from a provider is wrapped in an expanded value, is skipped, and decodes to a typed nil *PipelineConfig – `service::pipelines::metrics: ${env:EMPTY}` makes Config.Validate panic with a nil pointer dereference instead of reporting `must have at least one receiver`")
+		}
+		if n == 0 {
+			c.Undecided("nil-entry expansion hook", "-", "not found")
+		}
+	}
+
+	c.Rule("R19", "COV", "the list of service extensions is validated like the lists of a pipeline: its configuration type has a Validate method (found by the recursive validator) that rejects an id that is listed twice – otherwise the extension is created twice and one instance is never started and never shut down", 1)
+	if T := p.LookupType("service/extensions", "Config"); T == nil {
+		c.Anchor("service/extensions.Config")
+	} else {
+		has := false
+		for _, t := range []types.Type{T, types.NewPointer(T)} {
+			ms := types.NewMethodSet(t)
+			for i := 0; i < ms.Len(); i++ {
+				if ms.At(i).Obj().Name() == "Validate" {
+					has = true
+				}
+			}
+		}
+		c.Check(has, "service::extensions has a validator", p.Pos(T.Obj().Pos()), "Validate method", "the type has no Validate method: `service::extensions: [zpages, zpages]` is accepted, the factory is called twice, the first instance gets starts=0 shutdowns=0")
+	}
+
+	c.Rule("R20", "GATE", "a configuration mistake is an error, never a panic: in the telemetry configuration migration every dereference of the optional `endpoint` pointer is guarded by a nil test of that pointer", 2)
+	mpk := p.Pkg("service/telemetry/internal/migration")
+	if mpk == nil {
+		c.Anchor("service/telemetry/internal/migration")
+		return
+	}
+	n := 0
+	for _, fn := range p.AllSrcFuncs(mpk) {
+		allInstrs(fn, func(in ssa.Instruction) {
+			u, ok := in.(*ssa.UnOp)
+			if !ok || u.Op != token.MUL {
+				return
+			}
+			inner, ok := u.X.(*ssa.UnOp)
+			if !ok || inner.Op != token.MUL {
+				return
+			}
+			fa, ok := inner.X.(*ssa.FieldAddr)
+			if !ok || derefStruct(fa.X.Type()).Field(fa.Field).Name() != "Endpoint" {
+				return
+			}
+			n++
+			guarded := false
+			_, want := fieldChain(inner.X)
+			for _, g := range guardsOf(u.Block()) {
+				bo, ok := g.Cond.(*ssa.BinOp)
+				if !ok || bo.Op != token.NEQ || !g.Branch || !(isNilConst(bo.X) || isNilConst(bo.Y)) {
+					continue
+				}
+				o := bo.X
+				if isNilConst(o) {
+					o = bo.Y
+				}
+				if lu, ok := o.(*ssa.UnOp); ok && lu.Op == token.MUL {
+					if fa2, ok := lu.X.(*ssa.FieldAddr); ok && derefStruct(fa2.X.Type()).Field(fa2.Field).Name() == "Endpoint" {
+						if _, got := fieldChain(lu.X); strings.Join(got, ".") == strings.Join(want, ".") {
+							guarded = true
+						}
+					}
+				}
+			}
+			c.Check(guarded, fmt.Sprintf("endpoint dereference #%d in %s is guarded", n, fnName(fn)), p.Pos(u.Pos()), "Endpoint != nil", "the optional endpoint is dereferenced without a nil test: `service::telemetry::traces: {processors: [{batch: {exporter: {otlp: {protocol: http/protobuf}}}}]}` (no endpoint: use the SDK default) panics with a nil pointer dereference while the configuration is loaded")
+		})
+	}
+	if n == 0 {
+		c.Undecided("endpoint dereferences in the telemetry migration", "-", "none found")
+	}
+}
+
+func runC15ErrorHandler(c *Ctx) {
+	p := c.P
+	c.Rule("R15", "COV", "a request that is refused before its media type is known keeps its client-error status: the receiver's error handler (called for authentication failures and undecodable or unsupported encodings) answers with the status code it was given on every path – it never falls through to the internal-error fallback because of the request's Content-Type", 1)
+	rpk := p.Pkg("receiver/otlpreceiver")
+	if rpk == nil {
+		c.Anchor("receiver/otlpreceiver")
+		return
+	}
+	n := 0
+	for _, fn := range p.AllSrcFuncs(rpk) {
+		if fn.Parent() != nil || fn.Name() != "errorHandler" {
+			continue
+		}
+		n++
+		var bad ssa.Instruction
+		for _, ci := range calls(fn, func(ci ssa.CallInstruction) bool {
+			sf := staticCalleeFn(ci)
+			return sf != nil && sf.Name() == "writeResponse"
+		}) {
+			for _, a := range ci.Common().Args {
+				if k, ok := constInt(a); ok && k == 500 {
+					bad = ci.(ssa.Instruction)
+				}
+			}
+		}
+		c.Check(bad == nil, fnName(fn)+" answers with the status it was given", p.Pos(fn.Pos()), "no constant 500 answer", "for a Content-Type other than the two OTLP media types (missing, text/plain, application/octet-stream) the handler discards the given code and writes the 500 fallback ("+posOf(p, bad)+"): an unauthenticated request or one with an unsupported Content-Encoding is answered 500 instead of 401/400")
+	}
+	if n == 0 {
+		c.Undecided("error handler of the OTLP/HTTP receiver", "-", "not found")
+	}
+}
+
+func runC11SharedStopErr(c *Ctx) {
+	p := c.P
+	c.Rule("R14", "DEP", "a failed shutdown of a shared component is remembered for the instances that are shut down later: the error of the wrapped Shutdown is stored in the shared wrapper (not only in a local of the once-closure), so that the later calls can report the same final status – every instance of the component ends in PermanentError, none in Stopped", 1)
+	pk := p.Pkg("internal/sharedcomponent")
+	if pk == nil {
+		c.Anchor("internal/sharedcomponent")
+		return
+	}
+	n := 0
+	for _, fn := range p.AllSrcFuncs(pk) {
+		if fn.Parent() != nil || fn.Name() != "Shutdown" || fn.Signature.Recv() == nil {
+			continue
+		}
+		for _, g := range withAnon(fn) {
+			for _, ci := range calls(g, func(ci ssa.CallInstruction) bool {
+				return ci.Common().IsInvoke() && ci.Common().Method.Name() == "Shutdown"
+			}) {
+				n++
+				kept := false
+				seen := map[ssa.Value]bool{}
+				work := []ssa.Value{ci.Value()}
+				for len(work) > 0 {
+					x := work[len(work)-1]
+					work = work[:len(work)-1]
+					if x == nil || seen[x] || x.Referrers() == nil {
+						continue
+					}
+					seen[x] = true
+					for _, r := range *x.Referrers() {
+						switch y := r.(type) {
+						case *ssa.Store:
+							if fa, ok := y.Addr.(*ssa.FieldAddr); ok && y.Val == x {
+								if nt := namedOf(fa.X.Type()); nt != nil && nt.Obj().Pkg() == pk.Types {
+									kept = true
+								}
+							}
+							if y.Val == x {
+								// a captured / local variable: follow its loads
+								if rr := y.Addr.Referrers(); rr != nil {
+									for _, ld := range *rr {
+										if u, ok := ld.(*ssa.UnOp); ok && u.Op == token.MUL {
+											work = append(work, u)
+										}
+									}
+								}
+							}
+						case *ssa.Phi:
+							work = append(work, y)
+						}
+					}
+				}
+				c.Check(kept, "error of the wrapped Shutdown in "+fnName(fn)+" is kept in the wrapper", p.Pos(ci.Pos()), "stored into a field of the shared component", "the error lives only in a local of the once-closure: the first instance ends Stopping, PermanentError; for the others Shutdown returns nil, the graph reports Stopping and Stopped – instances of one component end in different statuses")
+			}
+		}
+	}
+	if n == 0 {
+		c.Undecided("wrapped Shutdown call of the shared component", "-", "not found")
+	}
+}
+
+func runC01RecoveryReadError(c *Ctx, a *pqAnchors) {
+	p := c.P
+	c.Rule("R20", "GATE", "a failed read of the requests that were in flight deletes nothing: in the start-up recovery no storage call that carries Delete operations (and no Delete) is made on the error side of the read of those items – they stay stored and listed as dispatched for the next start (same treatment as an item that cannot be moved)", 1)
+	if a == nil || a.recovery == nil {
+		c.Anchor("persistent queue recovery")
+		return
+	}
+	fn := a.recovery
+	n := 0
+	isStorage := func(ci ssa.CallInstruction) bool {
+		cc := ci.Common()
+		return cc.IsInvoke() && cc.Method.Pkg() != nil && cc.Method.Pkg().Path() == pkgStorage && (cc.Method.Name() == "Batch" || cc.Method.Name() == "Delete" || cc.Method.Name() == "Set")
+	}
+	for _, sc := range calls(fn, func(ci ssa.CallInstruction) bool {
+		cc := ci.Common()
+		return cc.IsInvoke() && cc.Method.Pkg() != nil && cc.Method.Pkg().Path() == pkgStorage
+	}) {
+		v := sc.Value()
+		if v == nil {
+			continue
+		}
+		// the error test of this storage call
+		var errVals []ssa.Value
+		errVals = append(errVals, v)
+		for _, r := range *v.Referrers() {
+			if ex, ok := r.(*ssa.Extract); ok {
+				errVals = append(errVals, ex)
+			}
+		}
+		for _, ev := range errVals {
+			if ev.Referrers() == nil {
+				continue
+			}
+			for _, r := range *ev.Referrers() {
+				bo, ok := r.(*ssa.BinOp)
+				if !ok || bo.Op != token.NEQ || !(isNilConst(bo.X) || isNilConst(bo.Y)) {
+					continue
+				}
+				for _, rr := range *bo.Referrers() {
+					iff, ok := rr.(*ssa.If)
+					if !ok {
+						continue
+					}
+					n++
+					errSide := iff.Block().Succs[0]
+					var bad ssa.Instruction
+					for _, w := range calls(fn, isStorage) {
+						if w.Block() == errSide || (errSide.Dominates(w.Block()) && len(errSide.Preds) == 1) {
+							bad = w.(ssa.Instruction)
+						}
+					}
+					c.Check(bad == nil, fmt.Sprintf("failed storage call #%d in %s is not answered with a write", n, fnName(fn)), p.Pos(iff.Cond.Pos()), "no storage write/delete on the error side", "on the error side of a storage call the recovery issues another storage write ("+posOf(p, bad)+"): when the read of the in-flight items fails it deletes every one of them – one transient storage error at start-up loses all requests that were kept for this start (start #3 delivers nothing)")
+				}
+			}
+		}
+	}
+	if n == 0 {
+		c.Undecided("read of the in-flight items in the recovery", "-", "not found")
+	}
+}
+
+// ---------- C14.R13 ----------
+func runC14NoMarshalInDecode(c *Ctx) {
+	p := c.P
+	c.Rule("R13", "WHO", "nothing that was rendered is decoded again: no decode hook of confmap calls Conf.Marshal – marshalling redacts opaque values (that is its job for the effective configuration), so a rendering fed back into the decode stores the marker `[REDACTED]` in place of the secret", 4)
+	pk := p.Pkg("confmap")
+	if pk == nil {
+		c.Anchor("confmap")
+		return
+	}
+	n := 0
+	for _, fn := range p.AllSrcFuncs(pk) {
+		// decode hooks: closures returned by functions whose name ends in HookFunc / the expanded-value hook
+		if fn.Parent() == nil || !(strings.Contains(fn.Parent().Name(), "Hook") || strings.Contains(fn.Parent().Name(), "useExpandValue")) {
+			continue
+		}
+		n++
+		var bad ssa.Instruction
+		for _, ci := range callsNamed(fn, func(f *types.Func) bool { return f.FullName() == "(*"+modPrefix+"/confmap.Conf).Marshal" }) {
+			bad = ci.(ssa.Instruction)
+		}
+		c.Check(bad == nil, "decode hook "+fnName(fn)+" does not decode a rendering", p.Pos(fn.Pos()), "no Conf.Marshal", "the hook marshals the partially decoded struct ("+posOf(p, bad)+") and merges that rendering into the input of the decode: a configuration struct that squashes a struct implementing confmap.Unmarshaler gets its configopaque.String fields (also in maps) stored as \"[REDACTED]\" – the component later sends the marker instead of its secret")
+	}
+	if n == 0 {
+		c.Undecided("decode hooks of confmap", "-", "none found")
+	}
+}
